@@ -351,7 +351,7 @@ enum Plant {
     RenameLose,
     /// after a reopen the last row of t is missing
     ReopenLose,
-    /// after DROP COLUMN b the remaining INT columns of t read +1
+    /// after DROP COLUMN b the other non-key columns of t read changed values (+1 / an appended 'x')
     DropShift,
 }
 impl Plant {
@@ -478,8 +478,10 @@ fn check_state(db: &turdb::Database, m: &Model, flags: &HistFlags, plant: Plant,
                         Plant::DropShift if flags.dropped_b => {
                             for r in rows.iter_mut() {
                                 for v in r.iter_mut().skip(1) {
-                                    if let V::Int(x) = v {
-                                        *x += 1;
+                                    match v {
+                                        V::Int(x) => *x += 1,
+                                        V::Text(t) => t.push('x'),
+                                        _ => {}
                                     }
                                 }
                             }
@@ -778,7 +780,7 @@ fn passes(ctx: &Ctx) -> Vec<Pass> {
         Pass { name: "full:empty", setup: vec![], alphabet: table_alphabet(), depth: d(3, 4), clean: false },
         Pass { name: "full:pk2", setup: vec![CT1, I1, I2], alphabet: table_alphabet(), depth: d(2, 3), clean: false },
         Pass { name: "full:nopk2", setup: vec![CT2, I1, I2], alphabet: table_alphabet(), depth: d(2, 3), clean: false },
-        Pass { name: "full:schema", setup: vec![], alphabet: schema_alphabet(), depth: d(3, 4), clean: false },
+        Pass { name: "full:schema", setup: vec![], alphabet: schema_alphabet(), depth: d(3, 5), clean: false },
         Pass { name: "clean:empty", setup: vec![], alphabet: table_alphabet(), depth: d(3, 4), clean: true },
         Pass { name: "clean:pk2", setup: vec![CT1, I1, I2], alphabet: table_alphabet(), depth: d(3, 4), clean: true },
         Pass { name: "clean:nopk2", setup: vec![CT2, I1, I2], alphabet: table_alphabet(), depth: d(3, 4), clean: true },
